@@ -18,6 +18,7 @@ import (
 	v1 "metacontroller/pkg/controller/composite/api/v1"
 	dynamicdiscovery "metacontroller/pkg/dynamic/discovery"
 	dynamicinformer "metacontroller/pkg/dynamic/informer"
+	"metacontroller/pkg/hooks"
 	"metacontroller/pkg/zzverif/env"
 	stub "metacontroller/pkg/zzverif/informerstub"
 
@@ -71,6 +72,7 @@ type verifPCConfig struct {
 	SSA              bool
 	FieldPaths       []string
 	Sync, Finalize   *verifHook
+	Customize        hooks.Hook // nil: the controller has no customize hook
 }
 
 type verifPC struct {
@@ -122,6 +124,9 @@ func verifNewPC(w *env.World, cfg verifPCConfig) *verifPC {
 	if cfg.FinalizeEnabled {
 		cc.Spec.Hooks.Finalize = goodHook()
 	}
+	if cfg.Customize != nil {
+		cc.Spec.Hooks.Customize = goodHook()
+	}
 	if cfg.Sync == nil {
 		cfg.Sync = &verifHook{}
 	}
@@ -133,6 +138,9 @@ func verifNewPC(w *env.World, cfg verifPCConfig) *verifPC {
 	ssa := &common.ApplyOptions{Strategy: common.ApplyStrategyDynamicApply}
 	if cfg.SSA {
 		ssa = &common.ApplyOptions{Strategy: common.ApplyStrategyServerSideApply, FieldManager: "metacontroller"}
+		// natively many replayed cases share one process: each starts with an
+		// empty server-side-apply memo, as every symbolically executed path does
+		common.VerifResetSSAMemo()
 	}
 	factory := dynamicinformer.NewSharedInformerFactory(w.Dyn, 0)
 	pc, err := newParentController(w.RM, w.Dyn, factory, rec, &env.MCClient{S: w.Srv}, &env.RevLister{}, cc, 1, ssa, logr.Discard())
@@ -140,6 +148,9 @@ func verifNewPC(w *env.World, cfg verifPCConfig) *verifPC {
 		panic(err)
 	}
 	pc.syncHook, pc.finalizeHook = cfg.Sync, cfg.Finalize
+	if cfg.Customize != nil {
+		pc.customize.VerifSetHook(cfg.Customize)
+	}
 	pc.queue = q
 	p := &verifPC{parentController: pc, W: w, Queue: q, Recorder: rec, Cfg: cfg}
 	p.Snapshot(nil, nil, nil)
